@@ -1,5 +1,5 @@
 (* C02 — byte fidelity: parse-then-dump reproduces the bytes the parse consumed. *)
-From VF Require Import Model.Writer Proofs.CodecCorrect Proofs.SizeProps Proofs.RoundTrip Gen.GeneratedOk.
+From VF Require Import Model.Writer Proofs.CodecCorrect Proofs.SizeProps Proofs.RoundTrip Proofs.BitsCorrect Proofs.BitRun Proofs.BitStruct Proofs.BitFidelity Gen.GeneratedOk.
 Open Scope string_scope. Open Scope list_scope. Open Scope Z_scope.
 
 (* For every configuration with a proper byte order, every sequential type (`flat`: scalars, enums, pointers, arrays of all four length
@@ -18,6 +18,28 @@ Proof. intros c He fuel t Hfl Hfi s pos ctx v p. exact (dump_parse_identity c He
 Theorem dumps_of_parsed : forall c, endian_ok (c_endian c) -> forall t, flat t = true -> fid_ty c t = true ->
   forall s v p, Bytes s -> read_top c t s 0 = Ok (v, p) -> dumps c t v = Ok (firstn (Z.to_nat p) s) /\ p <= zlen s.
 Proof. exact dumps_read_top. Qed.
+(* Bit fields: "only bit-field bits not assigned to any field may differ, and they are written as zero".  For a structure made of one run of
+   bit fields over an unsigned unit of k bytes, parsed from ANY stream at any position (u = the unit's integer as the storage type decodes it):
+   dumping the parsed value writes, through the storage type, exactly u with the unassigned bits cleared -
+   little endian: the bits above the fields (u mod 2^(sum of widths)); big endian: the bits below them. *)
+Theorem bit_fields_dump_of_parsed_little : forall c k pk al nm n w run fuel s pos ctx v q wpos,
+  String.eqb (c_endian c) "<" = true -> endian_ok (c_endian c) -> (0 < k)%nat -> NoDup (map fst ((n, w) :: run)) ->
+  widths_ok (w :: map snd run) -> w + total (map snd run) <= Z.of_nat k * 8 ->
+  read_ty c fuel (TStruct nm (run_fields (PInt k false pk) al ((n, w) :: run)) false) s pos ctx = Ok (v, q) ->
+  exists u, prim_read_at (c_endian c) (PInt k false pk) s pos = Ok (VInt u, q) /\
+    write_ty c (TStruct nm (run_fields (PInt k false pk) al ((n, w) :: run)) false) v wpos
+    = int_to_bytes (prim_endian (PInt k false pk) (c_endian c)) k false (u mod 2 ^ (w + total (map snd run))).
+Proof. exact bit_struct_fidelity_le. Qed.
+Theorem bit_fields_dump_of_parsed_big : forall c k pk al nm n w run fuel s pos ctx v q wpos,
+  String.eqb (c_endian c) "<" = false -> endian_ok (c_endian c) -> (0 < k)%nat -> NoDup (map fst ((n, w) :: run)) ->
+  widths_ok (w :: map snd run) -> w + total (map snd run) <= Z.of_nat k * 8 ->
+  read_ty c fuel (TStruct nm (run_fields (PInt k false pk) al ((n, w) :: run)) false) s pos ctx = Ok (v, q) ->
+  exists u, prim_read_at (c_endian c) (PInt k false pk) s pos = Ok (VInt u, q) /\
+    write_ty c (TStruct nm (run_fields (PInt k false pk) al ((n, w) :: run)) false) v wpos
+    = int_to_bytes (prim_endian (PInt k false pk) (c_endian c)) k false
+        (u mod 2 ^ (Z.of_nat k * 8) - u mod 2 ^ (Z.of_nat k * 8 - (w + total (map snd run)))).
+Proof. exact bit_struct_fidelity_be. Qed.
+
 (* the scalar codecs underneath *)
 Theorem int_decode_then_encode : forall e signed bs, (e = LE \/ e = BE) -> Bytes bs ->
   int_to_bytes e (length bs) signed (int_from_bytes e signed bs) = Ok bs.
@@ -25,6 +47,8 @@ Proof. exact int_bytes_roundtrip. Qed.
 
 Print Assumptions parse_then_dump_is_identity.
 Print Assumptions dumps_of_parsed.
+Print Assumptions bit_fields_dump_of_parsed_little.
+Print Assumptions bit_fields_dump_of_parsed_big.
 
 (* non-vacuity: a length-prefixed record with a nested structure, a null-terminated string and a to-end-of-stream tail *)
 Definition ex_cfg := mkCfg "<" (PInt 8 false true) 8 [] [].
@@ -40,4 +64,9 @@ Example ex_class : flat ex_ty = true /\ fid_ty ex_cfg ex_ty = true.
 Proof. vm_compute. split; reflexivity. Qed.
 Example ex_run : let s := [2; 1; 0; 254; 255; 104; 105; 0; 1; 2; 3; 0; 0; 128; 63; 7; 0; 0; 0; 9; 8; 7] in
   exists v, read_top ex_cfg ex_ty s 0 = Ok (v, 22) /\ dumps ex_cfg ex_ty v = Ok s.
+Proof. eexists. split; [vm_compute; reflexivity|]. vm_compute. reflexivity. Qed.
+
+(* bit fields: uint16 a:3; uint16 b:9 leaves the top four bits of the little-endian unit unassigned: 0xFFFF comes back as 0x0FFF *)
+Definition exb_ty := TStruct "m" (run_fields (PInt 2 false true) 2 [("a", 3); ("b", 9)]) false.
+Example exb_run : exists v, read_top ex_cfg exb_ty [255; 255; 7] 0 = Ok (v, 2) /\ dumps ex_cfg exb_ty v = Ok [255; 15].
 Proof. eexists. split; [vm_compute; reflexivity|]. vm_compute. reflexivity. Qed.
